@@ -22,11 +22,41 @@ Definition parse_uint (d : bytes) : res Z :=
   | _ => parse_uint_loop d 0
   end.
 
-(* atoi, as repaired by "fix: atoi of an empty slice" (finding F1): a length check precedes d[0]. *)
+Definition E_RANGE : Z := 3.      (* errors.New("value out of range") *)
+Definition MAX_FAST_DIGITS : nat := 18.
+
+(* unbounded decimal value of a digit string (strconv.ParseInt's accumulation before its range check) *)
+Fixpoint dec_value (d : bytes) (n : Z) : Z :=
+  match d with
+  | [] => n
+  | c :: r => dec_value r (n * 10 + (c - CH0))
+  end.
+
+(* atoiLong: texts longer than 18 bytes: same grammar, range checked through strconv.ParseInt(s, 10, 64) *)
+Definition atoi_long_charset_ok (d : bytes) : bool :=
+  match d with
+  | [] => true
+  | c :: r => (is_digit c || (c =? MINUS)) && forallb is_digit r
+  end.
+Definition atoi_long (d : bytes) : res Z :=
+  if negb (atoi_long_charset_ok d) then Err E_FORMAT else
+  match d with
+  | [] => Err E_RANGE                       (* ParseInt("") is a syntax error; unreachable: len d > 18 *)
+  | c :: r =>
+      if c =? MINUS then
+        match r with
+        | [] => Err E_RANGE                 (* ParseInt("-") syntax error *)
+        | _ => let v := - dec_value r 0 in if in_int64b v then Ok v else Err E_RANGE
+        end
+      else let v := dec_value d 0 in if in_int64b v then Ok v else Err E_RANGE
+  end.
+
+(* atoi, as repaired by the two "fix:" commits (F1 empty slice, F8 overflow) *)
 Definition atoi (d : bytes) : res Z :=
   match d with
   | [] => Err E_EMPTY
   | c :: r =>
+      if Nat.ltb MAX_FAST_DIGITS (length d) then atoi_long d else
       if c =? MINUS then
         match parse_uint r with
         | Ok n => Ok (wrap64 (-1 * n))
